@@ -18,15 +18,17 @@ def klass(e):
 
 def run(chk):
     r = fncommon.run_fn(chk, "sy", "SyslogTrace", "SyslogTrace.cfg")
+    # the same reference at larger limits: kept messages that end in long runs of multi-byte characters
+    r2 = fncommon.run_fn(chk, "sy", "SyslogTrace", "SyslogTrace.cfg", extra_args=["-maxmsg", "80", "-maxrec", "200"], consts={"MaxMsg": 80, "MaxRec": 200}, tag="-long", shards=8)
     seen = {}
-    for e, txt in r["findings"]:
+    for e, txt in r["findings"] + r2["findings"]:
         seen.setdefault(klass(e), e)
     for k, e in seen.items():
         chk.report("syslog:" + k, "syslog parser on line %r: observed %s, which the reference definition Syslog!Check rejects"
                    % (bytes(e["in"]).decode("latin1"), {x: (bytes(e[x]).decode("latin1") if x == "msg" else e[x]) for x in e if x not in ("in", "tokens", "mapping", "ev")}),
                    {"event.json": e})
     chk.cov.update({"states": r["states"], "transitions": r["states"], "traces_validated_against_impl": r["events"],
-                    "evaluations": r["events"], "distinct_nontrivial": r["cases"],
+                    "evaluations": r["events"] + r2["events"], "distinct_nontrivial": r["cases"] + r2["cases"], "long_tail_cases": r2["cases"],
                     "rule": "lines enumerated by the driver with InputLogMaxMessageBytes=12, InputLogMaxRecordBytes=64: every PRI 0..191 and 13 out-of-range/non-canonical ones under 3 level mappings; first-token framings; each header token from 7 value classes one at a time and all at once, empty and missing tokens, absent/empty message; every prefix of a valid line; message bodies = every tail of <=%d symbols over {a, space, newline, 2/3/4-byte characters, invalid byte} behind 6-13 filler bytes and behind headers of 15 lengths (raw length below/at/above the record limit; header alone below/at/above it); the header skeleton: every string of <=%d symbols over {< > 1 3 space - a} followed by a well-formed remainder and by filler" % (5 if chk.tier == "thorough" else 3, 7 if chk.tier == "thorough" else 5),
                     "exhaustive": True,
                     "samples": [json.loads(l) for l in open(r["first_trace"]).read().splitlines()[5:7]]})
